@@ -393,6 +393,50 @@ pub fn run(cmd: &str, args: &[&str]) -> String {
             }
             outs.join(" || ")
         }
+        ("msearch", [hseed, seed, depth, workers, nt, nb, hist, sched, fens]) => {
+            // several workers under a forced schedule (yield-point hook): events, table checksum, schedule entries used
+            use rand::SeedableRng;
+            use weechess_engine::searcher::{verif, StatusEvent};
+            let mut r0 = rand_chacha::ChaCha8Rng::seed_from_u64(hseed.parse().unwrap());
+            let mut artifact = Some(verif::small_artifact(&mut r0, nt.parse().unwrap(), nb.parse().unwrap()));
+            if *hist != "-" {
+                for h in hist.split('|') {
+                    if let Some(st) = state_of(h) { verif::record_history(artifact.as_mut().unwrap(), &st); }
+                }
+            }
+            let depth: usize = depth.parse().unwrap();
+            let workers: usize = workers.parse().unwrap();
+            let seed: u64 = seed.parse().unwrap();
+            let schedule: Vec<u64> = if *sched == "-" { Vec::new() } else { sched.split(',').map(|x| x.parse().unwrap()).collect() };
+            let mut outs: Vec<String> = Vec::new();
+            for (i, fen) in fens.split('|').enumerate() {
+                let Some(st) = state_of(fen) else { outs.push("badfen".into()); continue };
+                let mut evs: Vec<String> = Vec::new();
+                verif::set_schedule(Some(schedule.clone()));
+                let (art, _nodes) = verif::analyze_sync(st, seed.wrapping_add(i as u64), Some(depth), Some(workers), artifact.take(), None, &mut |e| match e {
+                    StatusEvent::BestMove { line, evaluation } => {
+                        let ev: i32 = evaluation.into();
+                        evs.push(format!("B{}:{}", ev, line.iter().map(|m| m.as_raw().to_string()).collect::<Vec<_>>().join(",")));
+                    }
+                    StatusEvent::Progress { depth, nodes_searched, .. } => evs.push(format!("P{}:{}", depth, nodes_searched)),
+                    StatusEvent::Warning { .. } => {}
+                });
+                let (used, _served) = verif::schedule_progress();
+                verif::set_schedule(None);
+                let mut dump = verif::artifact_dump(&art);
+                dump.sort();
+                let md: u64 = 1000000007;
+                let mut acc: u64 = 17;
+                for (k, e) in dump.iter() {
+                    for x in [k % md, e.0 as u64, e.1 as u64 % md, e.2 as u64 % md, e.3 as u64 % md, (e.4 as i64 + 20000) as u64] {
+                        acc = (acc * 131 + x + 7) % md;
+                    }
+                }
+                artifact = Some(art);
+                outs.push(format!("{} T{}:{} S{}", evs.join(" "), dump.len(), acc, used));
+            }
+            outs.join(" || ")
+        }
         ("stoptest", [seed, delay_ms, mode, fen]) => {
             // the public entry point on its own threads: send Stop after a delay (or drop the receiver / stop twice),
             // and report how long the join took
